@@ -192,6 +192,33 @@ def interp_rules(ctx, which=('feedforward', 'feedback')):
                        'rows that bracket it with the fraction of the interval elapsed: %s'
                        % (kind, why))
     ctx.floor('INTERP-SITE', n_mid, 1, 'mid-point evaluations')
+    # the state handed to the propagation-matrix helper is that mid-point, in each filter
+    for kind in which:
+        g = repo.function('filters.run_%s_filter' % kind)
+        pcalls = [n for n in ast.walk(g.node) if isinstance(n, ast.Call) and
+                  norm_text(n.func) == '_compute_error_propagation_matrices' and n.args]
+        ctx.need(len(pcalls) == 1, '%s: call of _compute_error_propagation_matrices' % kind)
+        a0 = pcalls[0].args[0]
+        dfs = [a0]
+        if isinstance(a0, ast.Name):
+            dfs = [s_.value for s_ in ast.walk(g.node) if isinstance(s_, ast.Assign) and
+                   len(s_.targets) == 1 and isinstance(s_.targets[0], ast.Name) and
+                   s_.targets[0].id == a0.id]
+        ctx.need(len(dfs) == 1, '%s: definition of the state handed to the propagation matrices'
+                 % kind)
+        d0 = dfs[0]
+        via = isinstance(d0, ast.Call) and norm_text(d0.func) == f.name
+        arith = isinstance(d0, ast.BinOp) and not any(isinstance(n, ast.Call)
+                                                      for n in ast.walk(d0))
+        ctx.need(via or arith, '%s: the state handed to the propagation matrices, `%s`, is not '
+                               'read' % (kind, norm_text(d0)[:60]))
+        ctx.ob('INTERP-SITE', via, None, '%s: the state for the propagation matrices comes from %s'
+               % (kind, f.name), f=g, node=d0, key='%s-mid-via' % kind,
+               why='%s: the state for the propagation matrices is `%s`, plain arithmetic on the '
+                   'two states: roll / pitch / heading are angles, their arithmetic mean is off '
+                   'by 180 degrees when the two headings lie on either side of +-180 (the '
+                   'attitude must be averaged as a rotation, as %s does)'
+                   % (kind, norm_text(d0)[:60], f.name))
 
 
 def _row_index(txt):
